@@ -228,6 +228,20 @@ def validation(chk, dprog, cfg):
                 reach = b.reachable_from(err_side, avoid={gt["target"]})
                 dup = any(b.callee_name(t2).endswith("syn::error::Error::new") and any(x[0] == "str" and "Duplicate" in x[1] for a2 in t2["args"] for x in mir.walk(b.operand_term(a2)))
                           for bb2, t2 in b.calls() if bb2 in reach and not b.dominates(store_side, bb2))
+                if not dup:
+                    # the error may be built by a private helper (`duplicate_attr_error(span, "bounds")`): a crate-local function called on the error
+                    # branch that constructs a syn::Error from a "Duplicate .." message
+                    import json as _json
+                    for bb2, t2 in b.calls():
+                        if bb2 not in reach or b.dominates(store_side, bb2):
+                            continue
+                        tgt2 = t2.get("resolved") or t2.get("callee")
+                        f2 = dprog.fns.get(tgt2)
+                        if f2 is None or tgt2 not in dprog._bodies_raw or not mir.strip_generics(tgt2).startswith(cd.D):
+                            continue
+                        hb = [dprog.body(p2) for p2 in cd.closure_tree(dprog, tgt2)]
+                        if any(hb_.callee_name(t3).endswith("syn::error::Error::new") for hb_ in hb for _, t3 in hb_.calls()) and any("Duplicate" in _json.dumps(hb_.blocks) for hb_ in hb):
+                            dup = True
                 ok = dominated and dup and sets[0] not in b.reachable_from(err_side, avoid={gt["target"], store_side})
                 detail = "store under `%s` guard: %s; duplicate error on the other branch: %s" % ("!is_some" if is_some else "is_none", dominated, dup)
         if not sets and not guards:
